@@ -940,6 +940,7 @@ func (dsc *dataStoreCommand) expire(keyName string, expiration time.Time, nx, xx
 	}
 
 	sk.expiresAt = expiration
+	dsc.setDirty()
 	output.data = respInt(1)
 	return
 }
